@@ -34,8 +34,8 @@ type bombRec struct {
 }
 
 func bombInput(shape string, n int, closed bool, prefix string) []byte {
-	units := map[string]string{"arr": "[", "obj": `{"k":`, "mixed": `[{"k":`, "pad": " [", "arrc": "["}
-	closers := map[string]string{"arr": "]", "obj": "}", "mixed": "}]", "pad": "]", "arrc": "]"}
+	units := map[string]string{"arr": "[", "obj": `{"k":`, "mixed": `[{"k":`, "pad": " [", "arrc": "[", "arrnf": "[0,", "objnf": `{"a":0,"k":`}
+	closers := map[string]string{"arr": "]", "obj": "}", "mixed": "}]", "pad": "]", "arrc": "]", "arrnf": "]", "objnf": "}"}
 	u, ok := units[shape]
 	if !ok {
 		fmt.Fprintln(os.Stderr, "unknown shape", shape)
@@ -65,11 +65,12 @@ func bombMain(args []string) int {
 	limit := fs.Int64("limit", 0, "read limit")
 	entry := fs.String("entry", "Detect", "Detect|DetectReader|json|geo|har|gltf|ndjson")
 	maxStack := fs.Int("maxstack", 32<<20, "debug.SetMaxStack")
-	prefixKind := fs.String("prefix", "", "a valid beginning placed before the units: lead0 | leadq | leadobj")
+	prefixKind := fs.String("prefix", "", "a valid beginning placed before the units: lead0 | leadq | leadobj | coords | feat")
 	fs.Parse(args)
 
 	debug.SetMaxStack(*maxStack)
-	prefixes := map[string]string{"": "", "lead0": "[0,", "leadq": `["\"",`, "leadobj": `{"a":0,"k":`}
+	prefixes := map[string]string{"": "", "lead0": "[0,", "leadq": `["\"",`, "leadobj": `{"a":0,"k":`,
+		"coords": `{"type":"Polygon","coordinates":`, "feat": `{"type":"FeatureCollection","features":`}
 	in := bombInput(*shape, *n, *closed, prefixes[*prefixKind])
 	rec := bombRec{Ev: "bomb", Prefix: *prefixKind, PLen: len(prefixes[*prefixKind]), Shape: *shape, N: *n, Closed: *closed, Limit: *limit, Entry: *entry}
 	mimetype.VerifSetJSONHook(func(e mimetype.VerifJSONEvent) {
